@@ -2,7 +2,12 @@
 
    op 1  a history on one session's crypto object
            arg 0 = [m; role]    m: 0 vanilla, 1 tbc, 2 wrath;  role (wrath only): 0 the client object
-                                (ClientCrypto and its halves), 1 the server object
+                                (ClientCrypto and its halves), 1 the server object, 2 the client object
+                                with its receiving side at header level (a 4-byte Dec is
+                                attempt_decrypt_server_header, a 1-byte Dec is
+                                decrypt_large_server_header, output = size and opcode as 4 + 4
+                                little-endian bytes per completed header; obs is preceded by the
+                                header that decrypt_large_server_header(0) would complete: the stash)
            arg 1 = session key (40 bytes): the history starts on the combined object new(K)
            arg 2, 3, ... = the operations, one byte string cut into pieces of at most 2000 bytes
                    (Coq's string literals do not survive tens of kilobytes), records
@@ -61,6 +66,10 @@ Definition out_of_run {C E D} (obs : E * D -> list N) (split : C -> E * D)
   | Panic => [st_panic]
   end.
 
+(* what decrypt_large_server_header(0) would complete from the stashed four bytes *)
+Definition stash_obs (d : W.client_dec) : list N :=
+  match W.decrypt_large_server_header d 0 with Ok (_, so) => hdr_bytes so | _ => [] end.
+
 Definition run_C12 : runner := fun op a =>
   match op with
   | 1 =>
@@ -79,6 +88,12 @@ Definition run_C12 : runner := fun op a =>
              match W.client_crypto_new K with
              | Ok c => out_of_run (fun p => probe W.ce_encrypt (fst p) ++ probe W.cd_decrypt (snd p)) W.cc_split
                                   (wc_run (Combined c) ops)
+             | _ => [st_panic]
+             end
+           else if role =? 2 then
+             match W.client_crypto_new K with
+             | Ok c => out_of_run (fun p => stash_obs (snd p) ++ probe W.ce_encrypt (fst p) ++ probe W.cd_decrypt (snd p)) W.cc_split
+                                  (wch_run (Combined c) ops)
              | _ => [st_panic]
              end
            else if role =? 1 then
